@@ -62,7 +62,7 @@ def gen(rng, tier):
     n = 8 if tier == "quick" else 120
     cases = []
     for g in range(n):
-        s = coincident(rng) if g % 4 == 0 else (G.gen_solvable(rng) if g % 2 else G.gen_frame(rng, max_cells=1))
+        s = coincident(rng) if g % 4 == 0 else (G.gen_twins(rng) if g % 4 == 2 else (G.gen_solvable(rng) if g % 2 else G.gen_frame(rng, max_cells=1)))
         if len(s.bars) > 5:
             s.bars = s.bars[:5]
             ids = {b["id"] for b in s.bars}
@@ -167,7 +167,7 @@ SPEC = {
     "corpus_filter": lambda c: False,
     "stages": [("C", stageC, S.stageC_v, 6, 60)],
     "nontrivial": lambda c, o: c.get("role") in ("schedule", "reordered", "renamed") and not o.get("ParsePanic"),
-    "rule": "groups: a structure of <= 5 bars (every fourth with two coincident bars: ties in the sort by position) and, against it: every completion order of the slicing goroutines imposed through the verif gate "
+    "rule": "groups: a structure of <= 5 bars (every fourth with two coincident bars: ties in the sort by position; every fourth twin bars whose load positions agree to six decimals without being equal) and, against it: every completion order of the slicing goroutines imposed through the verif gate "
             "(all N! for N <= 3, 6 / 24 sampled beyond), two free-scheduling repeats, the same definition with bars, load lines, node lines and sections permuted plus comments / padding, and a consistent renaming "
             "of nodes, bars, materials and sections. Oracle: identical sliced bars (positions and loads) and the same partition of unknowns / count for every order; solved iff the reference solves; displacements, "
             "diagrams and reactions equal at every position within the tolerance from both residuals. Stage C: the numbers of every imposed order equal the Coq numbering model run on the implementation's bar order.",
